@@ -15,6 +15,7 @@ import (
 	"io"
 	"io/ioutil"
 	"os"
+	osexec "os/exec"
 	"runtime"
 	"runtime/debug"
 	"sort"
@@ -87,6 +88,7 @@ type scenario struct {
 	Gomaxprocs  int     `json:"gomaxprocs"`
 	Steps       []step  `json:"steps"`
 	TimeoutS    int     `json:"timeout_s"`
+	Isolate     bool    `json:"isolate"` // run in a child process (a crash of the driver must not take the harness down)
 }
 
 // ---------------------------------------------------------------------------------------------
@@ -99,6 +101,7 @@ type runRec struct {
 	calls  map[string]int          // user function call counts, by "node/kind"
 	fired  map[string]bool         // one-shot faults already fired
 	faultN map[string]int
+	nfired int
 }
 
 var (
@@ -165,6 +168,9 @@ func (r *runRec) maybeFail(nd int, f *fault, shard int) error {
 		} else {
 			r.fired[fmt.Sprint(nd)] = true
 		}
+	}
+	if fire {
+		r.nfired++
 	}
 	r.mu.Unlock()
 	if !fire {
@@ -531,6 +537,17 @@ func (r *runner) scan(ctx context.Context, res *exec.Result) ([][]int, string) {
 }
 
 func (r *runner) doStep(ctx context.Context, st *step, lane int) {
+	if st.Do == "run" || st.Do == "scan" {
+		// every run and scan gets its own deadline, so that one that only ends because its deadline
+		// expired does not also fail the steps after it
+		to := r.sc.TimeoutS
+		if to <= 0 {
+			to = 120
+		}
+		var cancel func()
+		ctx, cancel = context.WithTimeout(ctx, time.Duration(to)*time.Second)
+		defer cancel()
+	}
 	switch st.Do {
 	case "run":
 		rid := nextRid()
@@ -566,6 +583,7 @@ func (r *runner) doStep(ctx context.Context, st *step, lane int) {
 			err error
 			pan string
 		)
+		t0 := time.Now()
 		func() {
 			defer func() {
 				if e := recover(); e != nil {
@@ -575,6 +593,27 @@ func (r *runner) doStep(ctx context.Context, st *step, lane int) {
 			res, err = r.sess.Run(ctx, fn, args...)
 		}()
 		ev := vtr.Rec{"do": "run", "as": st.As, "lane": lane, "args": st.Args, "prog": st.Prog, "err": errText(err), "rid": rid}
+		ev["elapsed_ms"] = int(time.Since(t0) / time.Millisecond)
+		ev["ctxerr"] = ctx.Err() != nil
+		rr := getRec(rid)
+		rr.mu.Lock()
+		ev["fault_fired"] = rr.nfired
+		rr.mu.Unlock()
+		hasmsg := false
+		if err != nil {
+			for _, nd := range st.Prog.Nodes {
+				if nd.Fault != nil {
+					m := nd.Fault.Msg
+					if m == "" {
+						m = "userfault"
+					}
+					if strings.Contains(err.Error(), m) {
+						hasmsg = true
+					}
+				}
+			}
+		}
+		ev["hasmsg"] = hasmsg
 		if pan != "" {
 			ev["panic"] = pan
 		}
@@ -689,7 +728,18 @@ func runScenario(sc *scenario) (rec vtr.Rec) {
 	if to <= 0 {
 		to = 120
 	}
-	ctx, cancel := context.WithTimeout(context.Background(), time.Duration(to)*time.Second)
+	nrun := 1
+	var count func(ss []step)
+	count = func(ss []step) {
+		for i := range ss {
+			nrun++
+			for _, g := range ss[i].Steps {
+				count(g)
+			}
+		}
+	}
+	count(sc.Steps)
+	ctx, cancel := context.WithTimeout(context.Background(), time.Duration(to*nrun)*time.Second)
 	defer cancel()
 	done := make(chan struct{})
 	go func() {
@@ -706,7 +756,7 @@ func runScenario(sc *scenario) (rec vtr.Rec) {
 	hung := false
 	select {
 	case <-done:
-	case <-time.After(time.Duration(to+30) * time.Second):
+	case <-time.After(time.Duration(to*nrun+30) * time.Second):
 		hung = true
 	}
 	if !hung {
@@ -727,6 +777,62 @@ func runScenario(sc *scenario) (rec vtr.Rec) {
 func init() {
 	// same shape as the production policy (exponential back-off, 5 retries), scaled down
 	exec.VerifSetRetryPolicy(retry.MaxRetries(retry.Backoff(20*time.Millisecond, 200*time.Millisecond, 2), 5))
+}
+
+// runIsolated runs one scenario in a child process (this test binary re-executed), so that a crash of the
+// driver process is an observation, not the end of the harness.
+func runIsolated(sc *scenario) vtr.Rec {
+	dir, err := ioutil.TempDir("", "verifiso")
+	if err != nil {
+		panic(err)
+	}
+	defer os.RemoveAll(dir)
+	b, _ := json.Marshal([]*scenario{sc})
+	if err := ioutil.WriteFile(dir+"/case.json", b, 0644); err != nil {
+		panic(err)
+	}
+	to := sc.TimeoutS
+	if to <= 0 {
+		to = 120
+	}
+	to = to*(len(sc.Steps)+1) + 60
+	ctx, cancel := context.WithTimeout(context.Background(), time.Duration(to+90)*time.Second)
+	defer cancel()
+	cmd := osexec.CommandContext(ctx, os.Args[0], "-test.run", "TestVerifProgChild$", "-test.timeout", fmt.Sprintf("%ds", to+80))
+	cmd.Env = append(os.Environ(), "VERIF_CHILD_CASE="+dir+"/case.json", "VERIF_CHILD_OUT="+dir+"/out.json")
+	outb, runErr := cmd.CombinedOutput()
+	var rec vtr.Rec
+	if data, rerr := ioutil.ReadFile(dir + "/out.json"); rerr == nil && json.Unmarshal(data, &rec) == nil && rec != nil {
+		return rec
+	}
+	tail := string(outb)
+	if i := strings.Index(tail, "panic:"); i >= 0 {
+		tail = tail[i:]
+	}
+	if len(tail) > 1500 {
+		tail = tail[:1500]
+	}
+	return vtr.Rec{"id": sc.ID, "exec": sc.Exec, "parallelism": sc.Parallelism, "maxload": sc.MaxLoad, "machcomb": sc.MachComb,
+		"machprocs": sc.MachProcs, "chunk": sc.Chunk, "canary": sc.Canary, "events": []vtr.Rec{}, "hung": false,
+		"crashed": true, "crash": fmt.Sprintf("%v: %s", runErr, tail)}
+}
+
+// TestVerifProgChild runs the single scenario of $VERIF_CHILD_CASE (see runIsolated).
+func TestVerifProgChild(t *testing.T) {
+	path := os.Getenv("VERIF_CHILD_CASE")
+	if path == "" {
+		t.Skip("not a child")
+	}
+	var scs []*scenario
+	vtr.ReadJSON(path, &scs)
+	rec := runScenario(scs[0])
+	b, err := json.Marshal(rec)
+	if err != nil {
+		t.Fatal(err)
+	}
+	if err := ioutil.WriteFile(os.Getenv("VERIF_CHILD_OUT"), b, 0644); err != nil {
+		t.Fatal(err)
+	}
 }
 
 // TestVerifProg runs the scenarios of $VERIF_CASES; writes $VERIF_OUT/prog_records.ndjson.
@@ -763,7 +869,11 @@ func TestVerifProg(t *testing.T) {
 		go func() {
 			defer wg.Done()
 			for i := range idx {
-				out[i] = runScenario(scs[i])
+				if scs[i].Isolate {
+					out[i] = runIsolated(scs[i])
+				} else {
+					out[i] = runScenario(scs[i])
+				}
 			}
 		}()
 	}
